@@ -171,6 +171,37 @@ func init() {
 }
 
 // ruleC15CheckFirst: typestate 0 = generation not yet validated, 1 = validated.
+// genFieldsOf discovers, by role, the generation counter of a container and its snapshot in the iterator: the two integer
+// fields (one of the container type, one of another struct) that the iterator's Next compares for (in)equality.
+func genFieldsOf(nextFn *ssa.Function, contPkg, contType string) (contF, iterF string) {
+	side := func(v ssa.Value) (field string, isCont bool, ok bool) {
+		u, isU := resolveVal(v).(*ssa.UnOp)
+		if !isU || u.Op != token.MUL || !isIntType(u.Type()) {
+			return "", false, false
+		}
+		fa, isFA := u.X.(*ssa.FieldAddr)
+		if !isFA {
+			return "", false, false
+		}
+		return fieldName(fa.X.Type(), fa.Field), isNamedType(fa.X.Type(), contPkg, contType), true
+	}
+	for _, di := range deepInstrs(nextFn, 2) {
+		bo, ok := di.in.(*ssa.BinOp)
+		if !ok || (bo.Op != token.EQL && bo.Op != token.NEQ) {
+			continue
+		}
+		fx, cx, okx := side(bo.X)
+		fy, cy, oky := side(bo.Y)
+		if okx && oky && cx != cy {
+			if cx {
+				return fx, fy
+			}
+			return fy, fx
+		}
+	}
+	return "", ""
+}
+
 func ruleC15CheckFirst(c *Ctx, r *R) {
 	type spec struct {
 		fn, contField, contPkg, contType string
@@ -184,19 +215,25 @@ func ruleC15CheckFirst(c *Ctx, r *R) {
 			r.undecided(sp.fn+"|missing", token.NoPos, "anchor function not found")
 			continue
 		}
+		contGen, iterGen := genFieldsOf(fn, sp.contPkg, sp.contType)
+		if contGen == "" {
+			r.undecided(sp.fn+"|generation-check", fn.Pos(), "no comparison of the container's generation with the iterator's snapshot found in Next")
+			continue
+		}
 		isGenLoad := func(v ssa.Value) (iterSide bool, ok bool) {
-			u, isU := v.(*ssa.UnOp)
+			u, isU := resolveVal(v).(*ssa.UnOp)
 			if !isU || u.Op != token.MUL {
 				return false, false
 			}
 			fa, isFA := u.X.(*ssa.FieldAddr)
-			if !isFA || fieldName(fa.X.Type(), fa.Field) != "gen" {
+			if !isFA {
 				return false, false
 			}
+			f := fieldName(fa.X.Type(), fa.Field)
 			if isNamedType(fa.X.Type(), sp.contPkg, sp.contType) {
-				return false, true
+				return false, f == contGen
 			}
-			return true, true
+			return true, f == iterGen
 		}
 		ipkg := fn.Pkg
 		pf := &PF{N: 2, InScope: func(f *ssa.Function) bool { return f.Pkg == ipkg && f != fn }}
@@ -217,7 +254,7 @@ func ruleC15CheckFirst(c *Ctx, r *R) {
 		pf.Instr = func(f *ssa.Function, in ssa.Instruction, q int) (StateSet, bool) {
 			// iter.gen = iter.X.gen : fresh snapshot
 			if st, ok := in.(*ssa.Store); ok {
-				if _, fld, ok := storedField(st.Addr); ok && fld == "gen" {
+				if _, fld, ok := storedField(st.Addr); ok && fld == iterGen {
 					if it, ok := isGenLoad(st.Val); ok && !it {
 						return ss(1), true
 					}
@@ -234,7 +271,7 @@ func ruleC15CheckFirst(c *Ctx, r *R) {
 			case *ssa.UnOp:
 				if x.Op == token.MUL {
 					if fa, ok := x.X.(*ssa.FieldAddr); ok && isNamedType(fa.X.Type(), sp.contPkg, sp.contType) {
-						if fld := fieldName(fa.X.Type(), fa.Field); fld != "gen" {
+						if fld := fieldName(fa.X.Type(), fa.Field); fld != contGen {
 							what = "read of " + sp.contType + "." + fld
 						}
 					}
@@ -277,10 +314,20 @@ func ruleC15Wrappers(c *Ctx, r *R) {
 		// deque's Iterate must snapshot gen from the container
 		if strings.HasSuffix(name, "Deque.Iterate") {
 			snap := false
+			contGen, iterGen := "gen", "gen"
+			if nx := c.fn("container/deque.dequeIterator.Next"); nx != nil {
+				if cg, ig := genFieldsOf(nx, "container/deque", "Deque"); cg != "" {
+					contGen, iterGen = cg, ig
+				}
+			}
 			instrs(fn, func(b *ssa.BasicBlock, i int, in ssa.Instruction) {
 				if st, ok := in.(*ssa.Store); ok {
-					if _, f, ok := storedField(st.Addr); ok && f == "gen" && strings.HasSuffix(path(st.Val), ".gen") {
-						snap = true
+					if _, f, ok := storedField(st.Addr); ok && f == iterGen {
+						if ld, ok := resolveVal(st.Val).(*ssa.UnOp); ok {
+							if fa, ok := ld.X.(*ssa.FieldAddr); ok && fieldName(fa.X.Type(), fa.Field) == contGen && isNamedType(fa.X.Type(), "container/deque", "Deque") {
+								snap = true
+							}
+						}
 					}
 				}
 			})
@@ -310,30 +357,63 @@ var _ = late(func() {
 	p.Rules = append(p.Rules, &Rule{ID: "C15.snapshot-atomic", Floor: 1, Clause: "the heap iterator captures its snapshot of the backing slice and the generation at the same point (same block): a change between the two captures would go unnoticed",
 		Run: func(c *Ctx, r *R) {
 			n := 0
+			nx := c.fn("internal/heap.heapIterator.Next")
+			contGen, iterGen := "gen", "gen"
+			if nx != nil {
+				if cg, ig := genFieldsOf(nx, "internal/heap", "Heap"); cg != "" {
+					contGen, iterGen = cg, ig
+				}
+			}
+			// the snapshot: a store, into a field of the iterator, of the heap's backing slice (h.a itself or wrapped by
+			// iterator.Slice / a sub-slice of it)
+			isBacking := func(v ssa.Value) bool {
+				v = resolveVal(v)
+				if call, ok := v.(*ssa.Call); ok && len(call.Call.Args) >= 1 {
+					if cal := staticCallee(&call.Call); cal != nil && cal.Name() == "Slice" {
+						v = resolveVal(call.Call.Args[0])
+					}
+				}
+				if sl, ok := v.(*ssa.Slice); ok {
+					v = resolveVal(sl.X)
+				}
+				if mi, ok := v.(*ssa.MakeInterface); ok {
+					v = resolveVal(mi.X)
+				}
+				ld, ok := v.(*ssa.UnOp)
+				if !ok {
+					return false
+				}
+				fa, ok := ld.X.(*ssa.FieldAddr)
+				return ok && isNamedType(fa.X.Type(), "internal/heap", "Heap") && fieldName(fa.X.Type(), fa.Field) == "a"
+			}
 			for _, fn := range c.funcsOfPkg("internal/heap") {
 				instrs(fn, func(b *ssa.BasicBlock, i int, in ssa.Instruction) {
-					call, ok := in.(*ssa.Call)
-					if !ok {
+					st, ok := in.(*ssa.Store)
+					if !ok || !isBacking(st.Val) {
 						return
 					}
-					cal := staticCallee(&call.Call)
-					if cal == nil || cal.Name() != "Slice" || cal.Pkg == nil || !strings.HasSuffix(cal.Pkg.Pkg.Path(), "/iterator") || len(call.Call.Args) != 1 || !strings.HasSuffix(path(call.Call.Args[0]), ".a") {
+					fa, ok := st.Addr.(*ssa.FieldAddr)
+					if !ok || isNamedType(fa.X.Type(), "internal/heap", "Heap") {
 						return
 					}
 					n++
 					same := false
 					for _, x := range b.Instrs {
-						if st, ok := x.(*ssa.Store); ok {
-							if _, f, ok := storedField(st.Addr); ok && f == "gen" && strings.HasSuffix(path(st.Val), ".gen") {
-								same = true
+						if st2, ok := x.(*ssa.Store); ok {
+							if _, f, ok := storedField(st2.Addr); ok && f == iterGen {
+								if ld, ok := resolveVal(st2.Val).(*ssa.UnOp); ok {
+									if fa2, ok := ld.X.(*ssa.FieldAddr); ok && fieldName(fa2.X.Type(), fa2.Field) == contGen {
+										same = true
+									}
+								}
 							}
 						}
 					}
-					r.ok(same, c.nameOf(fn)+"|snapshot-with-gen#"+itoa(n), call.Pos(), "the slice snapshot (iterator.Slice(h.a)) is taken here but the generation is recorded elsewhere: a Pop/Remove/Update between the two is not detected and the stale slice header reads a reordered array")
+					r.ok(same, c.nameOf(fn)+"|snapshot-with-gen#"+itoa(n), st.Pos(), "the snapshot of the backing slice is taken here but the generation is recorded elsewhere: a Pop/Remove/Update between the two is not detected and the stale slice header reads a reordered array")
 				})
 			}
 			if n == 0 {
-				r.violated("internal/heap|snapshot", token.NoPos, "the heap iterator no longer snapshots h.a through iterator.Slice; the rule needs to be revisited")
+				r.violated("internal/heap|snapshot", token.NoPos, "the heap iterator no longer snapshots h.a (directly or through iterator.Slice); the rule needs to be revisited")
 			}
 		}})
 })
